@@ -48,6 +48,7 @@ type FS struct {
 	failLeft  int
 	failMode  FailMode
 	frozen    bool
+	onMutate  func(logLen int)
 
 	// ReverseReaddir makes File.Readdir return entries in descending name order
 	// instead of ascending (directory order is unspecified in a real file system).
